@@ -137,7 +137,7 @@ enum RttScript { Const, Jitter, DrainLadder, HoldBand, Random, Late }
 #[derive(Clone, Copy, PartialEq)]
 enum RateScript { Zero, Steady, TrackTarget, Burst, Random, Tiny }
 #[derive(Clone, Copy, PartialEq)]
-enum LossScript { None, Fixed, Decaying, Heavy, Exact550, Random }
+enum LossScript { None, Fixed, Decaying, Heavy, Exact550, Random, CleanThenLossy }
 
 struct LinkSim {
     idx: usize,
@@ -171,7 +171,7 @@ impl LinkSim {
         let (rtt_s, rate_s, loss_s) = match flavour {
             1 => (RttScript::Const, RateScript::TrackTarget, LossScript::Decaying),   // back-off to the floor
             2 => (RttScript::DrainLadder, *rng.pick(&[RateScript::Zero, RateScript::Tiny]), LossScript::None), // drain ladder
-            3 => (RttScript::Const, RateScript::Steady, LossScript::Heavy),           // loss latch
+            3 => (RttScript::Const, RateScript::Steady, if rng.chance(1, 2) { LossScript::Heavy } else { LossScript::CleanThenLossy }), // loss latch
             4 => (RttScript::Const, RateScript::Steady, LossScript::Exact550),
             5 => (RttScript::HoldBand, RateScript::Steady, LossScript::None),
             6 => (RttScript::Jitter, RateScript::Burst, LossScript::Fixed),
@@ -242,6 +242,9 @@ impl LinkSim {
             }
             LossScript::Heavy => if self.age % 40 < 24 { *rng.pick(&[0.8, 0.9, 1.0, 0.6]) } else { 0.0 },
             LossScript::Exact550 => if self.age % 30 < 20 { 0.55 } else { 0.25 },
+            // exactly loss-free windows first (the average stays at 0.0), then a loss episode just above the
+            // latch threshold: the time-decayed average needs several seconds to cross it
+            LossScript::CleanThenLossy => if self.age % 30 < 6 { 0.0 } else if self.age % 30 < 20 { *rng.pick(&[0.58, 0.6, 0.7, 0.9]) } else { 0.0 },
             LossScript::Random => *rng.pick(&LOSS_POOL),
         };
         let pkts: u64 = match rng.below(8) {
